@@ -14,6 +14,7 @@ the pending list of a quantifier is exactly the rows that calls of OTHER formula
 table (they are appended in order, so the difference of the key lists is the list).
 -/
 import LnnVerif.Model.Fol
+import LnnVerif.Model.PropEngine
 
 namespace LNN
 
@@ -123,5 +124,40 @@ def pInfer (kb : FKB ι α) (nodes : List ι) (up down : List (FCall ι)) (eps :
     else
       let t := pInfer kb nodes up down eps fuel d.1
       ⟨t.state, t.steps + 1, diff + t.total, t.converged⟩
+
+/-- the early exit of `_infer` for a query without variables (`is_classically_resolved` is only
+ever true of a proposition-like formula): its single grounding is TRUE, FALSE or CONTRADICTION -/
+def fQueryStop (kb : FKB ι α) (query : Option ι) (s : FState ι α) : Bool :=
+  match query with
+  | some q => classicallyResolved (Table.getD (kb q).world (s.get q) [])
+  | none => false
+
+/-- `Model._infer` restricted to a query (`infer_query()` without `converge`): the loop of `pInfer`,
+left before a sweep as soon as the query is classically resolved -/
+def pInferQ (kb : FKB ι α) (nodes : List ι) (up down : List (FCall ι)) (eps : α) (query : Option ι) :
+    Nat → PState ι α → PInferResult ι α
+  | 0, p => ⟨p, 0, 0, false⟩
+  | fuel + 1, p =>
+    if fQueryStop kb query p.st then ⟨p, 0, 0, false⟩ else
+    let n0 := nGroundings nodes p.st
+    let u := runPCalls kb up p
+    let d := runPCalls kb down u.1
+    let diff := u.2 + d.2
+    if diff ≤ eps ∧ nGroundings nodes d.1.st = n0 then ⟨d.1, 1, diff, true⟩
+    else
+      let t := pInferQ kb nodes up down eps query fuel d.1
+      ⟨t.state, t.steps + 1, diff + t.total, t.converged⟩
+
+/-- without a query it is `pInfer` -/
+theorem pInferQ_none (kb : FKB ι α) (nodes : List ι) (up down : List (FCall ι)) (eps : α)
+    (fuel : Nat) (p : PState ι α) :
+    pInferQ kb nodes up down eps none fuel p = pInfer kb nodes up down eps fuel p := by
+  induction fuel generalizing p with
+  | zero => rfl
+  | succ n ih =>
+    simp only [pInferQ, pInfer, fQueryStop, Bool.false_eq_true, if_false]
+    split_ifs
+    · rfl
+    · rw [ih]
 
 end LNN
